@@ -10,6 +10,7 @@ use routee_compass_powertrain::routee::prediction::interpolation::interpolation_
 use routee_compass_powertrain::routee::prediction::interpolation::utils::linspace;
 use routee_compass_powertrain::routee::prediction::{load_prediction_model, model_type::ModelType, PredictionModel};
 use serde_json::json;
+use routee_compass_core::util::cache_policy::float_cache_policy::{FloatCachePolicy, FloatCachePolicyConfig};
 use routee_compass::app::compass::config::traversal_model::energy_model_vehicle_builders::VehicleBuilder;
 use routee_compass_core::model::state::state_model::StateModel;
 use routee_compass_core::model::traversal::traversal_model_error::TraversalModelError;
@@ -603,6 +604,9 @@ struct SCase {
     /// (coarse) bounds and bins over smartcore: (s_lo, s_hi, s_bins, g_lo, g_hi, g_bins)
     #[serde(default)]
     inner: Option<(f64, f64, usize, f64, f64, usize)>,
+    /// float_cache_policy enabled on the interpolated model's record: key precisions (cache_size 10000)
+    #[serde(default)]
+    cache: Option<Vec<i32>>,
     /// (raw speed, unit index, raw grade, unit index, kind)
     queries: Vec<(f64, usize, f64, usize, String)>,
 }
@@ -698,11 +702,19 @@ fn emit_sg(st: &mut Stream, c: &SCase, gen: serde_json::Value) {
                     "ideal_energy_rate": 0.0,
                     "real_world_energy_adjustment": 1.0
                 });
+                let mut entry = entry;
+                if let Some(kp) = &c.cache {
+                    entry["float_cache_policy"] = json!({"cache_size": 10000, "key_precisions": kp});
+                }
                 let vehicle = VehicleBuilder::ICE.build(&entry).map_err(|e| e.to_string())?;
                 let sm = StateModel::new(vehicle.state_features());
                 Ok(Arc::new(ConfigVehicle { vehicle, sm, eu }) as Arc<dyn PredictionModel>)
             } else if c.via_ops {
-                load_prediction_model("i".to_string(), &path, interp_type(under_type.clone(), outer), su, gu, eu, Some(EnergyRate::new(0.0)), None, None)
+                let cache = match &c.cache {
+                    Some(kp) => Some(FloatCachePolicy::from_config(FloatCachePolicyConfig { cache_size: 10000, key_precisions: kp.clone() }).map_err(|e| e.to_string())?),
+                    None => None,
+                };
+                load_prediction_model("i".to_string(), &path, interp_type(under_type.clone(), outer), su, gu, eu, Some(EnergyRate::new(0.0)), None, cache)
                     .map(|rec| rec.prediction_model.clone())
                     .map_err(|e| e.to_string())
             } else {
@@ -745,7 +757,24 @@ fn emit_sg(st: &mut Stream, c: &SCase, gen: serde_json::Value) {
             payload = format!("new=Err {}", cls)
         }
         Ok(Ok(model)) => {
-            for (rs, rsu, rg, rgu, _k) in &c.queries {
+            for (k, (ars, arsu, arg, argu, _k)) in c.queries.iter().enumerate() {
+                // record-level float cache (config path): the documented key of an input is round-half-away-from-zero of
+                // value * 10^precision per component; an input whose key was seen earlier in this sequence is answered
+                // with the stored answer of the FIRST input of that key, every other input with its own answer
+                let key = |q: &(f64, usize, f64, usize, String)| -> Option<(i64, i64)> {
+                    let kp = c.cache.as_ref()?;
+                    Some(((q.0 * 10f64.powi(kp[0])).round() as i64, (q.2 * 10f64.powi(kp[1])).round() as i64))
+                };
+                let eff = if c.via_config && c.cache.is_some() {
+                    (0..=k).find(|i| key(&c.queries[*i]) == key(&c.queries[k])).unwrap_or(k)
+                } else {
+                    k
+                };
+                if eff != k {
+                    st.count("cached-record:answer-of-an-earlier-input-with-the-same-key");
+                }
+                let (rs, rsu, rg, rgu, _) = &c.queries[eff];
+                let _ = (arsu, argu);
                 let (qsu, qgu) = (SU[*rsu], GU[*rgu]);
                 let sv = qsu.convert(&Speed::new(*rs), &su).as_f64();
                 let gv = qgu.convert(&Grade::new(*rg), &gu).as_f64();
@@ -754,7 +783,7 @@ fn emit_sg(st: &mut Stream, c: &SCase, gen: serde_json::Value) {
                 cq.push((sv, gv));
                 let r: R = catch(std::panic::AssertUnwindSafe(|| {
                     model
-                        .predict((Speed::new(*rs), qsu), (Grade::new(*rg), qgu))
+                        .predict((Speed::new(*ars), SU[*arsu]), (Grade::new(*arg), GU[*argu]))
                         .map(|(e, u)| {
                             assert_eq!(u, eu);
                             e.as_f64()
@@ -793,7 +822,11 @@ fn emit_sg(st: &mut Stream, c: &SCase, gen: serde_json::Value) {
     }
     let pair = |l: &[(f64, f64)]| coq_list(l, |(a, b)| format!("({}, {})", coq_f64(*a), coq_f64(*b)));
     let samples_coq = coq_list(&samples, |((s, g), r)| format!("(({}, {}), {})", coq_f64(*s), coq_f64(*g), coq_r(r)));
-    let qs: Vec<(f64, f64)> = c.queries.iter().map(|q| (q.0, q.2)).collect();
+    let qs: Vec<(f64, f64)> = if conv_s.len() == c.queries.len() {
+        conv_s.iter().zip(conv_g.iter()).map(|(a, b)| (a.0, b.0)).collect() // the effective inputs (see the cache rule above)
+    } else {
+        c.queries.iter().map(|q| (q.0, q.2)).collect()
+    };
     let mut terms = vec![format!(
         "line_sgm {} {} {} {} {} {} {} {} {} {} {}",
         id,
@@ -986,7 +1019,7 @@ fn gen_sg(r: &mut Rng, family: &str, s_bins: usize, g_bins: usize) -> SCase {
         queries = seq;
     }
     let _ = fresh_check;
-    SCase { family: family.to_string(), file, su, gu, eu, s_lo, s_hi, s_bins, g_lo, g_hi, g_bins, via_ops: r.chance(1, 2), fresh_check, via_config: family == "config", inner, queries }
+    SCase { family: family.to_string(), file, su, gu, eu, s_lo, s_hi, s_bins, g_lo, g_hi, g_bins, via_ops: r.chance(1, 2), fresh_check, via_config: family == "config", inner, cache: None, queries }
 }
 
 fn det_sg() -> Vec<SCase> {
@@ -1005,7 +1038,7 @@ fn det_sg() -> Vec<SCase> {
         queries.push((50.0, 0, 0.0, 1, "inside".to_string()));
         queries.push((150.0, 0, 30.0, 1, "outside-both".to_string()));
         queries.push((-3.0, 2, -300.0, 2, "outside-both".to_string()));
-        out.push(SCase { family: "vehicle-grid-sweep".into(), file, su: 0, gu: 0, eu: if file == 0 { 0 } else { 1 }, s_lo: 0.0, s_hi: 100.0, s_bins, g_lo: -0.2, g_hi: 0.2, g_bins, via_ops: file % 2 == 0, fresh_check: false, via_config: false, inner: None, queries });
+        out.push(SCase { family: "vehicle-grid-sweep".into(), file, su: 0, gu: 0, eu: if file == 0 { 0 } else { 1 }, s_lo: 0.0, s_hi: 100.0, s_bins, g_lo: -0.2, g_hi: 0.2, g_bins, via_ops: file % 2 == 0, fresh_check: false, via_config: false, inner: None, cache: None, queries });
     }
     // sequences of calls on ONE instance of the real smartcore-backed models (Bolt, Camry): the same raw numbers under
     // different units in consecutive calls, repeats, and the same units with other numbers
@@ -1023,7 +1056,7 @@ fn det_sg() -> Vec<SCase> {
             sq(40.0, 0, -0.05, 0, "seq-repeat"),
             sq(40.0, 1, -0.05, 2, "seq-same-numbers-both-units-changed"),
         ];
-        out.push(SCase { family: "sequence-one-instance".into(), file, su: 0, gu: 0, eu, s_lo: 0.0, s_hi: 100.0, s_bins: 21, g_lo: -0.2, g_hi: 0.2, g_bins: 9, via_ops: file == 0, fresh_check: true, via_config: false, inner: None, queries });
+        out.push(SCase { family: "sequence-one-instance".into(), file, su: 0, gu: 0, eu, s_lo: 0.0, s_hi: 100.0, s_bins: 21, g_lo: -0.2, g_hi: 0.2, g_bins: 9, via_ops: file == 0, fresh_check: true, via_config: false, inner: None, cache: None, queries });
     }
     // the configuration path for every speed-unit x grade-unit pair of the model declaration: bounds written in the
     // model's own units (0..100 mph and -0.2..0.2 decimal expressed in them); every configured node, inside, outside
@@ -1044,7 +1077,7 @@ fn det_sg() -> Vec<SCase> {
             queries.push((50.0, 0, 0.0, 0, "inside".to_string()));
             queries.push((150.0 * ss, su, 0.3 * gs, gu, "outside-both".to_string()));
             queries.push((-5.0 * ss, su, -0.5 * gs, gu, "outside-both".to_string()));
-            out.push(SCase { family: "config-units".into(), file: (su + gu) % 4, su, gu, eu: 0, s_lo, s_hi, s_bins, g_lo, g_hi, g_bins, via_ops: false, fresh_check: false, via_config: true, inner: None, queries });
+            out.push(SCase { family: "config-units".into(), file: (su + gu) % 4, su, gu, eu: 0, s_lo, s_hi, s_bins, g_lo, g_hi, g_bins, via_ops: false, fresh_check: false, via_config: true, inner: None, cache: None, queries });
         }
     }
     // nested declaration: a fine outer grid over a coarse 5x3 inner table over smartcore; at the outer nodes the value is
@@ -1061,16 +1094,46 @@ fn det_sg() -> Vec<SCase> {
         }
         queries.push((33.0, 0, 0.02, 0, "inside".to_string()));
         queries.push((120.0, 0, 0.5, 0, "outside-both".to_string()));
-        out.push(SCase { family: "nested-interpolate".into(), file, su: 0, gu: 0, eu, s_lo: 5.0, s_hi: 85.0, s_bins, g_lo: -0.15, g_hi: 0.15, g_bins, via_ops: k != 0, fresh_check: false, via_config: k == 2, inner: Some((0.0, 100.0, 5, -0.2, 0.2, 3)), queries });
+        out.push(SCase { family: "nested-interpolate".into(), file, su: 0, gu: 0, eu, s_lo: 5.0, s_hi: 85.0, s_bins, g_lo: -0.15, g_hi: 0.15, g_bins, via_ops: k != 0, fresh_check: false, via_config: k == 2, inner: Some((0.0, 100.0, 5, -0.2, 0.2, 3)), cache: None, queries });
+    }
+    // float_cache_policy ENABLED on the interpolated model. (a) the cache must not influence the construction of the table:
+    // key precisions coarser than the grid step ([0,2] on a 0.25 mph grid, [-1,1] on a 5 mph grid) and finer as control;
+    // every node must return the uncached underlying value. (b) one cached record (config path): a sequence of inputs
+    // around 0 (-0.02..0.02 step 0.01, repeats, inputs that share a key); each answer is the uncached answer of the first
+    // input of its key (round half away from zero)
+    {
+        let all_nodes = |s_lo: f64, s_hi: f64, sb: usize, g_lo: f64, g_hi: f64, gb: usize| {
+            let mut q = vec![];
+            for &x in &linspace(s_lo, s_hi, sb) {
+                for &y in &linspace(g_lo, g_hi, gb) {
+                    q.push((x, 0usize, y, 0usize, "grid-point".to_string()));
+                }
+            }
+            q
+        };
+        for (k, (kp, s_hi, sb)) in [(vec![0, 2], 10.0, 41usize), (vec![-1, 1], 100.0, 21), (vec![3, 5], 10.0, 41), (vec![0, 2], 10.0, 41)].into_iter().enumerate() {
+            let queries = all_nodes(0.0, s_hi, sb, -0.2, 0.2, 5);
+            out.push(SCase { family: "cache-table-construction".into(), file: k % 4, su: 0, gu: 0, eu: if k % 4 == 0 { 0 } else { 1 }, s_lo: 0.0, s_hi, s_bins: sb, g_lo: -0.2, g_hi: 0.2, g_bins: 5, via_ops: true, fresh_check: false, via_config: k == 3, inner: None, cache: Some(kp), queries });
+        }
+        for (file, eu) in [(1usize, 1usize), (0, 0)] {
+            let mut queries = vec![];
+            for g in [0.0, -0.01, 0.01, -0.02, 0.02, -0.004, 0.004, 0.0, -0.01, -0.014, 0.016] {
+                queries.push((30.0, 0usize, g, 0usize, "cached-sequence-grade-around-0".to_string()));
+            }
+            for sp in [0.0, -0.01, 0.01, -0.02, 0.02, 0.004, 1.0, 0.99, 1.01, 0.0] {
+                queries.push((sp, 0usize, 0.03, 0usize, "cached-sequence-speed-around-0".to_string()));
+            }
+            out.push(SCase { family: "cache-record-sequence".into(), file, su: 0, gu: 0, eu, s_lo: 0.0, s_hi: 100.0, s_bins: 21, g_lo: -0.2, g_hi: 0.2, g_bins: 9, via_ops: false, fresh_check: false, via_config: true, inner: None, cache: Some(vec![2, 2]), queries });
+        }
     }
     // smallest grids and degenerate configurations
     let q = vec![(10.0, 0, 0.0, 0, "inside".to_string()), (0.0, 0, -0.1, 0, "grid-point".to_string()), (99.0, 0, 0.5, 0, "outside-high".to_string())];
     let qn = vec![(f64::NAN, 0, 0.0, 0, "nan-speed".to_string()), (10.0, 0, f64::NAN, 0, "nan-grade".to_string()), (f64::INFINITY, 0, f64::NEG_INFINITY, 0, "infinite".to_string())];
-    out.push(SCase { family: "non-finite-query".into(), file: 0, su: 0, gu: 0, eu: 0, s_lo: 0.0, s_hi: 60.0, s_bins: 3, g_lo: -0.1, g_hi: 0.1, g_bins: 3, via_ops: false, fresh_check: false, via_config: false, inner: None, queries: qn });
-    out.push(SCase { family: "bins-2x2".into(), file: 0, su: 0, gu: 0, eu: 0, s_lo: 0.0, s_hi: 60.0, s_bins: 2, g_lo: -0.1, g_hi: 0.1, g_bins: 2, via_ops: false, fresh_check: false, via_config: false, inner: None, queries: q.clone() });
-    out.push(SCase { family: "bounds-reversed".into(), file: 0, su: 0, gu: 0, eu: 0, s_lo: 60.0, s_hi: 0.0, s_bins: 3, g_lo: -0.1, g_hi: 0.1, g_bins: 3, via_ops: true, fresh_check: false, via_config: false, inner: None, queries: q.clone() });
-    out.push(SCase { family: "bounds-equal".into(), file: 0, su: 0, gu: 0, eu: 0, s_lo: 30.0, s_hi: 30.0, s_bins: 3, g_lo: -0.1, g_hi: 0.1, g_bins: 3, via_ops: false, fresh_check: false, via_config: false, inner: None, queries: q.clone() });
-    out.push(SCase { family: "bins-1".into(), file: 0, su: 0, gu: 0, eu: 0, s_lo: 0.0, s_hi: 60.0, s_bins: 1, g_lo: -0.1, g_hi: 0.1, g_bins: 3, via_ops: false, fresh_check: false, via_config: false, inner: None, queries: q.clone() });
+    out.push(SCase { family: "non-finite-query".into(), file: 0, su: 0, gu: 0, eu: 0, s_lo: 0.0, s_hi: 60.0, s_bins: 3, g_lo: -0.1, g_hi: 0.1, g_bins: 3, via_ops: false, fresh_check: false, via_config: false, inner: None, cache: None, queries: qn });
+    out.push(SCase { family: "bins-2x2".into(), file: 0, su: 0, gu: 0, eu: 0, s_lo: 0.0, s_hi: 60.0, s_bins: 2, g_lo: -0.1, g_hi: 0.1, g_bins: 2, via_ops: false, fresh_check: false, via_config: false, inner: None, cache: None, queries: q.clone() });
+    out.push(SCase { family: "bounds-reversed".into(), file: 0, su: 0, gu: 0, eu: 0, s_lo: 60.0, s_hi: 0.0, s_bins: 3, g_lo: -0.1, g_hi: 0.1, g_bins: 3, via_ops: true, fresh_check: false, via_config: false, inner: None, cache: None, queries: q.clone() });
+    out.push(SCase { family: "bounds-equal".into(), file: 0, su: 0, gu: 0, eu: 0, s_lo: 30.0, s_hi: 30.0, s_bins: 3, g_lo: -0.1, g_hi: 0.1, g_bins: 3, via_ops: false, fresh_check: false, via_config: false, inner: None, cache: None, queries: q.clone() });
+    out.push(SCase { family: "bins-1".into(), file: 0, su: 0, gu: 0, eu: 0, s_lo: 0.0, s_hi: 60.0, s_bins: 1, g_lo: -0.1, g_hi: 0.1, g_bins: 3, via_ops: false, fresh_check: false, via_config: false, inner: None, cache: None, queries: q.clone() });
     out
 }
 
